@@ -3,6 +3,7 @@ import Bashlex.Serialize
 import Bashlex.Spec.PyVal
 import Bashlex.Spec.Tree
 import Bashlex.Spec.Rel
+import Bashlex.Model.Visitor
 
 namespace Bashlex
 open Spec
@@ -179,6 +180,13 @@ def specHandle (cmd opts inp : String) (extra : List String) : String :=
     | .ok parts =>
       " ".intercalate ((opts.splitOn ",").map fun p =>
         p ++ ":" ++ ",".intercalate (dedup (evalProp p src parts (cmd == "specdbg"))))
+  | "visit", [line] =>
+    -- visit <descriptor of the node to prune at, or -> <src> <outcome>: the model's callback trace
+    match outcomeNodes line with
+    | .error e => "ILL:" ++ e
+    | .ok parts =>
+      let t := " ".intercalate ((parts.map fun n => (visit (fun m => descNode m == opts) n).map showEv).flatten)
+      ((t.replace "\\" "\\\\").replace "\n" "\\n").replace "\t" "\\t"
   | "rel", outs =>
     match opts.splitOn ":" with
     | prop :: params =>
